@@ -149,7 +149,7 @@ def run(rep):
     results = C.pmap(work, jobs)
     rep.trusted += ["clang 14 front end and LLVM inliner/SROA/mem2reg", "polynomial normaliser harness/ir/poly.py",
                     "documented coordinate formulas spec/c02_factories.json"]
-    rep.assumptions += ["bit offsets of bit-aligned views narrowed to int do not overflow (rows shorter than 2^31 bits)"]
+    engine_assumed = set()
     rep.rule("cell: normal form of cell(F(v),x,y) equals normal form of cell(v, phi_F(x,y)) for every kind K and factory F")
     rep.rule("dim: F(v).width()/height() equal the documented formula")
     rep.rule("compose: cell(F(G(v)),x,y) equals cell(v, phi_G(phi_F(x,y))) for all ordered pairs")
@@ -169,6 +169,7 @@ def run(rep):
             except (Unsupported, KeyError) as e:
                 rep.fail_analysis("%s: IR not supported: %s" % (desc, e))
                 continue
+            engine_assumed |= ia.assumed | ib.assumed
             key = "%s:%s:%s" % (kind, fac, k)
             if ra == rb:
                 rep.ok(kind, desc, {"normal_form": repr(ra)[:300]})
@@ -176,6 +177,7 @@ def run(rep):
                 rep.violation(kind, key, "include/boost/gil/image_view_factory.hpp (%s)" % fac,
                               {"obligation": desc, "lhs": repr(ra)[:1500], "rhs": repr(rb)[:1500],
                                "difference": repr(ra - rb)[:800] if isinstance(ra, Poly) and isinstance(rb, Poly) else None})
+    rep.assumptions += sorted(engine_assumed)       # (a narrowed bit offset was one until C03 L11 / the repair of bit_advance)
     nk = len(kinds)
     rep.floor("obligations:cell", nk * 8)
     rep.floor("obligations:dim", nk * 16)
